@@ -164,16 +164,24 @@ Section Seq.
     cbn [bind]. apply IH.
   Qed.
 
+  Lemma exec_w_rest txs h t :
+    exec (w_rest_p sc txs h) t =
+    (do invalid, t2 <- breach_loop sc (find_breaches txs t) t [];
+     do _, t3 <- (match invalid with [] => Ok tt t2 | l => gk_delete_appointments t2 l false end);
+     Ok tt (set_w_height t3 h)).
+  Proof.
+    unfold w_rest_p. ex. rewrite exec_breach_loop.
+    destruct (breach_loop sc (find_breaches txs t) t []) as [inv t2|s t2]; [|reflexivity].
+    cbn [bind]. destruct inv as [|x inv]; ex; [reflexivity|].
+    rewrite exec_delete_apps. destruct (gk_delete_appointments t2 (x :: inv) false) as [[] t3|s t3]; reflexivity.
+  Qed.
+
   Lemma exec_w_connect hash txs h t :
     exec (w_connect_p sc hash txs h) t = w_block_connected sc t (cache_block hash txs) h.
   Proof.
-    unfold w_connect_p, w_block_connected. ex. unfold update_cache.
+    unfold w_connect_p, w_cache_p, w_block_connected. ex. unfold update_cache.
     destruct (ti_update (w_cache t) (cache_block hash txs)) as [c|]; ex; [|reflexivity].
-    rewrite keys_of_cache_block. unfold find_breaches. cbn [db_apps set_w_cache].
-    rewrite exec_breach_loop.
-    match goal with |- context [breach_loop sc ?ds ?tt []] => destruct (breach_loop sc ds tt []) as [inv t2|s t2] end; [|reflexivity].
-    cbn [bind]. destruct inv as [|x inv]; ex; [reflexivity|].
-    rewrite exec_delete_apps. destruct (gk_delete_appointments t2 (x :: inv) false) as [[] t3|s t3]; reflexivity.
+    rewrite exec_w_rest, keys_of_cache_block. reflexivity.
   Qed.
 
   Lemma exec_reorged_loop h us : forall rej t, exec (reorged_loop_p sc h us rej) t = reorged_loop sc h us t rej.
@@ -537,7 +545,6 @@ Record OblChain (G : list lock -> tower -> tower -> Prop) : Prop := {
   ob_delete_users : forall h t outd, has L_db h -> G h t (db_delete_users t outd);
   ob_gk_height : forall h t x, G h t (set_gk_height t x);
   ob_w_height : forall h t x, G h t (set_w_height t x);
-  ob_w_cache : forall h t c, has L_cache h -> G h t (set_w_cache t c);
   ob_car_height : forall h t x, has L_carrier h -> G h t (set_car_height t x);
   ob_car_memo : forall h t, has L_carrier h -> G h t (set_car_memo t []);
   ob_r_index : forall h t idx, has L_txindex h -> G h t (set_r_index t idx);
@@ -545,6 +552,10 @@ Record OblChain (G : list lock -> tower -> tower -> Prop) : Prop := {
   ob_set_reorged : forall h t r, has L_reorged h -> G h t (set_reorged t r);
   ob_trk_status : forall h t uuid x c, has L_carrier h -> has L_db h -> G h t (set_trk_status t uuid x c)
 }.
+
+(* ... of the two critical sections of the locator cache in the block events *)
+Definition OblCache (G : list lock -> tower -> tower -> Prop) : Prop :=
+  forall h t c, has L_cache h -> G h t (set_w_cache t c).
 
 Ltac has_tac := unfold has; vm_compute; reflexivity.
 
@@ -578,7 +589,7 @@ Ltac walk :=
   repeat (cbn [guark pbind acq rel act rd wr panic reach_p add_update_user_p charge_p delete_apps_p authenticate_p expired_p
                  gk_connect_p gk_disconnect_p send_p handle_breach_p reorged_p stale_p r_connect_p r_disconnect_p
                  store_appointment_p store_triggered_p cache_section_p has_tracker_p add_pre_p add_finish add_appointment_p
-                 get_appointment_p w_connect_p w_disconnect_p register_p add_p get_p fst snd state_of];
+                 get_appointment_p w_cache_p w_disconnect_p register_p add_p get_p fst snd state_of];
           try norm_held; try walk_step).
 
 Ltac kfin H :=
@@ -676,7 +687,6 @@ Section Structural.
             | apply (ob_delete_users G HB); has_tac
             | apply (ob_gk_height G HB)
             | apply (ob_w_height G HB)
-            | apply (ob_w_cache G HB); has_tac
             | apply (ob_car_height G HB); has_tac
             | apply (ob_car_memo G HB); has_tac
             | apply (ob_r_index G HB); has_tac
@@ -703,11 +713,19 @@ Section Structural.
       intros HK. unfold gk_connect_p. walk; try leafc; try kfin HK.
     Qed.
 
+    Lemma g_w_rest txs h (K : list lock -> unit -> Prop) : K [] tt -> guark G [] (w_rest_p sc txs h) K.
+    Proof.
+      intros HK. unfold w_rest_p. walk; try leafc.
+      apply g_breach_loop. intros i. walk; try leafc; try kfin HK.
+    Qed.
+
+    Context (HW : OblCache G).
+
     Lemma g_w_connect hash txs h (K : list lock -> unit -> Prop) : K [] tt -> guark G [] (w_connect_p sc hash txs h) K.
     Proof.
-      intros HK. unfold w_connect_p. walk; try leafc.
-      - rewrite st_update_cache. destruct (ti_update (w_cache t) (cache_block hash txs)); [apply (ob_w_cache G HB); has_tac|apply (ob_refl G sc HC)].
-      - apply g_breach_loop. intros i. walk; try leafc; try kfin HK.
+      intros HK. unfold w_connect_p. apply guark_bind. unfold w_cache_p. walk.
+      - rewrite st_update_cache. destruct (ti_update (w_cache t) (cache_block hash txs)); [apply HW; has_tac|apply (ob_refl G sc HC)].
+      - apply g_w_rest. exact HK.
     Qed.
 
     Ltac loop_hook ::=
@@ -723,7 +741,7 @@ Section Structural.
     Proof.
       intros HK. unfold disconnect_p. change Consts.LISTENER_ORDER with [0%Z; 1%Z; 2%Z].
       cbn [run_listeners_p listener_disconnected_p Z.eqb]. unfold gk_disconnect_p, w_disconnect_p, r_disconnect_p, mark_reorged.
-      walk; try leafc; try kfin HK;
+      walk; try leafc; try kfin HK; try (apply HW; has_tac);
         rewrite st_store_height; destruct (u32_sub h 1);
         first [apply (ob_gk_height G HB)|apply (ob_w_height G HB)|apply (ob_refl G sc HC)].
     Qed.
@@ -849,6 +867,9 @@ Proof.
   - eapply stmts_one. apply prim_trk_status_is_stmt.
 Qed.
 
+Lemma G_stmts_cache : OblCache G_stmts.
+Proof. intros h t c _. apply stmts_same. reflexivity. Qed.
+
 (* Whatever the schedule, the tables at any moment are the initial tables after a sequence of the
    SQL statements of Crash.v ... *)
 Theorem tables_are_statement_sequences le sc t0 t (opss : list (list op)) sched :
@@ -856,7 +877,7 @@ Theorem tables_are_statement_sequences le sc t0 t (opss : list (list op)) sched 
 Proof.
   apply (invariant_of_all_schedules (fun t' => stmts t t')); [|apply stmts_refl].
   apply Forall_forall. intros p Hp. apply in_map_iff in Hp. destruct Hp as [ops [<- _]].
-  eapply guark_mono; [|apply (g_thread G_stmts le sc (G_stmts_common sc) G_stmts_chain G_stmts_api t0 ops ktrue); intros; exact I].
+  eapply guark_mono; [|apply (g_thread G_stmts le sc (G_stmts_common sc) G_stmts_chain G_stmts_cache G_stmts_api t0 ops ktrue); intros; exact I].
   intros h a b Hab Ha. eapply stmts_trans; eauto.
 Qed.
 
@@ -949,8 +970,11 @@ Proof.
   pose proof (touches_check_conf le txs x (db_trks t) t []) as [? [? [? [? [? [? [? [? [? [? ?]]]]]]]]]]. prot.
 Qed.
 
+Lemma G_prot_cache : OblCache G_prot.
+Proof. intros h t c H. prot. Qed.
+
 Theorem lock_protects_data le sc t0 ops : guark G_prot [] (prog_of_thread le sc t0 ops) (fun h _ => h = []).
-Proof. apply (g_thread G_prot le sc (G_prot_common sc) G_prot_chain G_prot_api). reflexivity. Qed.
+Proof. apply (g_thread G_prot le sc (G_prot_common sc) G_prot_chain G_prot_cache G_prot_api). reflexivity. Qed.
 
 (* ------------------------------------------------------------------------------------------ *)
 (* 6. read-modify-write under `users` is atomic: while a thread holds the users lock, no step of
@@ -960,14 +984,14 @@ Proof. apply (g_thread G_prot le sc (G_prot_common sc) G_prot_chain G_prot_api).
 Definition progs_of le sc t0 (opss : list (list op)) : list (prog out) := map (prog_of_thread le sc t0) opss.
 
 Lemma reachable_guar G le sc t0 t opss sched :
-  OblCommon G sc -> OblChain G -> OblApi G ->
+  OblCommon G sc -> OblChain G -> OblCache G -> OblApi G ->
   Forall (tguar G) (cf_threads (run_config (init_config t (progs_of le sc t0 opss)) sched)).
 Proof.
-  intros HC HB HA. apply (run_config_inv (fun c => Forall (tguar G) (cf_threads c))).
+  intros HC HB HW HA. apply (run_config_inv (fun c => Forall (tguar G) (cf_threads c))).
   - intros c i c' Hall Hs. apply (step_guar G c i c' Hall Hs).
   - cbn [cf_threads init_config]. apply Forall_forall. intros th Hin. apply in_map_iff in Hin. destruct Hin as [p [<- Hp]].
     apply tguar_spawn. apply in_map_iff in Hp. destruct Hp as [ops [<- _]].
-    apply (g_thread G le sc HC HB HA t0 ops ktrue). intros; exact I.
+    apply (g_thread G le sc HC HB HW HA t0 ops ktrue). intros; exact I.
 Qed.
 
 Theorem users_map_stable_while_locked le sc t0 t opss sched i j thi c' :
@@ -977,7 +1001,7 @@ Theorem users_map_stable_while_locked le sc t0 t opss sched i j thi c' :
   gk_users (cf_tower c') = gk_users (cf_tower c).
 Proof.
   intros c Hi Hh Hij Hs.
-  pose proof (reachable_guar G_prot le sc t0 t opss sched (G_prot_common sc) G_prot_chain G_prot_api) as Hall.
+  pose proof (reachable_guar G_prot le sc t0 t opss sched (G_prot_common sc) G_prot_chain G_prot_cache G_prot_api) as Hall.
   pose proof (excl_run t (progs_of le sc t0 opss) sched) as Hex. fold c in Hall, Hex.
   destruct (step_guar G_prot c j c' Hall Hs) as [_ [E|[thj [Hj Hg]]]]; [rewrite E; reflexivity|].
   destruct Hg as [_ [_ [Hu _]]]. apply Hu. exact (Hex i j thi thj L_users Hi Hj Hij Hh).
@@ -997,7 +1021,7 @@ Theorem data_stable_while_locked le sc t0 t opss sched i j thi c' l :
   (l = L_reorged -> reorged (cf_tower c') = reorged (cf_tower c)).
 Proof.
   intros c Hi Hh Hij Hs.
-  pose proof (reachable_guar G_prot le sc t0 t opss sched (G_prot_common sc) G_prot_chain G_prot_api) as Hall.
+  pose proof (reachable_guar G_prot le sc t0 t opss sched (G_prot_common sc) G_prot_chain G_prot_cache G_prot_api) as Hall.
   pose proof (excl_run t (progs_of le sc t0 opss) sched) as Hex. fold c in Hall, Hex.
   destruct (step_guar G_prot c j c' Hall Hs) as [_ [E|[thj [Hj Hg]]]]; [rewrite E; repeat split; reflexivity|].
   pose proof (Hex i j thi thj l Hi Hj Hij Hh) as Hn. unfold holds in Hn.
